@@ -245,7 +245,12 @@ impl<R: MkReloc> Machine for AsmM<R> {
         let Some(a) = self.a.as_mut() else { return "dead".into() };
         match ws {
             ["nd"] => format!("id {}", a.new_dynamic_label().get_id()),
-            ["c"] => match a.commit() { Ok(()) => self.addr_answer(), Err(e) => format!("err {}", show_err(&e)) },
+            ["c"] => match a.commit() {
+                Ok(()) => self.addr_answer(),
+                // a growing commit whose address-dependent fields cannot follow the buffer reports that AFTER the move: say where the buffer is now
+                Err(e) if show_err(&e) == "Impossible(managed)" => { let w = self.addr_answer(); format!("err {} {}", show_err(&e), &w[3..]) }
+                Err(e) => format!("err {}", show_err(&e)),
+            },
             ["buf"] => {
                 let fresh = { let r = a.reader(); let g = r.lock(); hex(&g) };
                 let old = { let g = self.first_reader.as_ref().unwrap().lock(); hex(&g) };
